@@ -9,6 +9,7 @@ X, X+, -X, Y, Y+, -Y, Z, Z+, -Z -> 0..8 (anything else: a text that is no pointe
 (2 = `X`, not a base) followed by the displacement; code addresses in words.
 """
 from .c14 import Case, limits
+from . import c14
 
 GENERATED = ["Isa_Avr"]
 
@@ -22,10 +23,12 @@ MODES = ["X", "X+", "-X", "Y", "Y+", "-Y", "Z", "Z+", "-Z"]
 SENT = 0x1F0
 
 
-def num_c(rng, v):
+def num_c(rng, v, sym=True):
     """C syntax (SetIntConstMode(eIntConstModeC))"""
     if v < 0:
-        return "-" + num_c(rng, -v)
+        return "-" + num_c(rng, -v, sym)
+    if sym and rng.random() < c14.SYM_SHARE:
+        return c14._symbol(rng, v)          # the value through a symbol (EQU / SET, alias of a symbol) defined before the statement
     k = rng.random()
     if k < 0.55:
         return str(v)
@@ -34,7 +37,21 @@ def num_c(rng, v):
     return "0b%s" % bin(v)[2:]
 
 
+# register aliases (REG / EQU / SET of r0..r31, aliases of aliases): defined at the top of every source, used for about a
+# quarter of the register operands; an alias denotes the register it was defined as, so the evaluated operand stays `r`
+ALIAS_DEFS = ([("a_r%d" % n, "reg", ("r%d" if n % 2 else "R%d") % n) for n in range(32)]
+              + [("e_r%d" % n, "equ", "r%d" % n) for n in range(32)]
+              + [("s_r%d" % n, "set", "r%d" % n) for n in range(32)]
+              + [("re_r%d" % n, "reg", "e_r%d" % n) for n in range(32)]
+              + [("er_r%d" % n, "equ", "A_R%d" % n) for n in range(32)]
+              + [("rer_r%d" % n, "reg", "er_r%d" % n) for n in range(32)])
+ALIAS_SHAPES = ["a_r%d", "e_r%d", "s_r%d", "re_r%d", "er_r%d", "rer_r%d"]
+
+
 def reg(rng, r):
+    if 0 <= r <= 31 and rng.random() < 0.25:
+        t = rng.choice(ALIAS_SHAPES) % r
+        return t.upper() if rng.random() < 0.3 else t
     if 0 <= r <= 31:
         if r < 10 and rng.random() < 0.15:
             return "R0%d" % r
@@ -71,9 +88,10 @@ class T:
 
     @staticmethod
     def header(cpuname):
+        al = ["%s\t%s\t%s" % d for d in ALIAS_DEFS]
         if cpuname.endswith("+wrap"):
-            return ["\tcpu %s" % cpuname[:-5], "\twrapmode on"]
-        return ["\tcpu %s" % cpuname]     # may carry the CPU argument `:codesegsize=0'
+            return ["\tcpu %s" % cpuname[:-5], "\twrapmode on"] + al
+        return ["\tcpu %s" % cpuname] + al     # may carry the CPU argument `:codesegsize=0'
 
     @staticmethod
     def org(a):
@@ -240,7 +258,7 @@ class T:
                     combos += [(rng.randrange(32), s) for s in (list(range(-2, 11)) + [255, 65536] if dense else [0, 7, 8])]
                     for a, s in combos:
                         if rng.random() < 0.25:
-                            add(dev, mn, [a, s], "%s.%s" % (N(rng, a), N(rng, s)), "io-bit")
+                            add(dev, mn, [a, s], "%s.%s" % (N(rng, a, False), N(rng, s, False)), "io-bit")   # `name.3` would be ONE symbol name: literals only
                         else:
                             add(dev, mn, [a, s], "%s,%s" % (N(rng, a), N(rng, s)), "io-bit")
                     if dense:
